@@ -28,7 +28,7 @@ func init() {
 		Explanation: "Decides: order of action data regardless of API order, reader/writer agreement on that order, the 1.7 array prefix width. " +
 			"Reference layouts decide that no released (type, protocol) layout drifts (version-gate slips, added/dropped/reordered fields); they are as right as the pinned tree is — " +
 			"no independent vanilla decoder exists on disk, so a layout that is already wrong at the pinned commit is not found by (3).",
-		Fixtures: []string{"provenance"},
+		Fixtures: []string{"provenance", "bitprov", "wire", "table"},
 		Variants: []Variant{
 			{Name: "encode-api-order", File: pkgPlayerinfo + "/upsert.go",
 				Old:    "\t\tfor _, action := range UpsertActions {\n\t\t\tif !ContainsAction(u.ActionSet, action) {\n\t\t\t\tcontinue\n\t\t\t}\n",
